@@ -2,6 +2,7 @@ package main
 
 import (
 	"fmt"
+	"strconv"
 	"strings"
 
 	"golang.org/x/tools/go/ssa"
@@ -22,8 +23,11 @@ func init() {
 			"Policy.FilterOpt chains LocalISDAS, RemoteISDAS, ACL, Sequence (unless IgnoreSequence) and the " +
 			"options, each fed with the previous result. (A1) evalPath denies a path iff some interface is " +
 			"denied, passing ingress = (index is odd); evalInterface returns the action of the first entry " +
-			"without a rule or whose rule matches. NOT decided: the sequence language itself (regular " +
-			"expression generated from the expression - needs regexp semantics), hop predicate matching.",
+			"without a rule or whose rule matches. (G1) Every regular-expression fragment the sequence listener " +
+			"builds from sub-fragments is one self-contained parenthesised group (optionally followed by ?, + " +
+			"or *), so that composing fragments cannot re-associate '|' against juxtaposition or the anchors - " +
+			"a necessary condition of 'the operators have their regular-expression meaning'. NOT decided: the " +
+			"sequence language itself (needs regexp semantics), hop predicate matching.",
 		Run: runC47,
 	})
 	setClaim("C47", claim{
@@ -33,6 +37,10 @@ func init() {
 			"element, call chaining",
 		Ref: "DESIGN.md §0.5 C47"})
 	addMutants(
+		Mutant{Prop: "C47", Name: "alternation-not-grouped", File: "private/path/pathpol/sequence.go",
+			Old: `	re := fmt.Sprintf("(%s|%s)", left, right)`, New: `	re := fmt.Sprintf("%s|%s", left, right)`, Expect: "G1-regexp-groups"},
+		Mutant{Prop: "C47", Name: "postfix-on-ungrouped-operand", File: "private/path/pathpol/sequence.go",
+			Old: `	re := fmt.Sprintf("(%s)+", l.pop())`, New: `	re := fmt.Sprintf("%s+", l.pop())`, Expect: "G1-regexp-groups"},
 		Mutant{Prop: "C47", Name: "acl-keeps-denied", File: "private/path/pathpol/acl.go",
 			Old: `		if a.evalPath(path.Metadata()) {`, New: `		if a.evalPath(path.Metadata()) || len(result) == 0 {`, Expect: "F1-filter-loops"},
 		Mutant{Prop: "C47", Name: "acl-ingress-flag-inverted", File: "private/path/pathpol/acl.go",
@@ -171,7 +179,92 @@ func derivedFrom(x, elem ssa.Value, s *Symer) bool {
 	return s.Sym(re) == s.Sym(rx)
 }
 
+// isRegexpGroup: the format is one balanced parenthesised group, optionally
+// followed by a postfix operator: "(…)", "(…)?", "(…)+", "(…)*".
+func isRegexpGroup(f string) bool {
+	f = strings.TrimRight(f, "?+*")
+	if len(f) < 2 || f[0] != '(' || f[len(f)-1] != ')' {
+		return false
+	}
+	depth := 0
+	for i := 0; i < len(f); i++ {
+		switch f[i] {
+		case '(':
+			depth++
+		case ')':
+			depth--
+			if depth == 0 && i != len(f)-1 {
+				return false // the first '(' closes before the end: not one group
+			}
+		}
+	}
+	return depth == 0
+}
+
+// c47RegexpGroups: every fragment the sequence listener builds from
+// sub-fragments is a self-contained group, so that composing fragments can never
+// re-associate operators ('|' binds weaker than concatenation and anchors in
+// regexp syntax, tighter in the sequence grammar).
+func c47RegexpGroups(c *Ctx) {
+	rule := "G1-regexp-groups"
+	pkg := c.Prog.SSAPkgs[modPath+"/private/path/pathpol"]
+	n := 0
+	for fn := range c.Prog.AllFuncs() {
+		if fn.Pkg != pkg || len(fn.Blocks) == 0 || !strings.HasPrefix(fn.Name(), "Exit") ||
+			!strings.Contains(FuncName(fn), "sequenceListener") {
+			continue
+		}
+		for _, b := range fn.Blocks {
+			for _, in := range b.Instrs {
+				call, ok := in.(*ssa.Call)
+				if !ok || calleeName(call.Common()) != "fmt.Sprintf" {
+					continue
+				}
+				fk, isK := call.Common().Args[0].(*ssa.Const)
+				if !isK || fk.Value == nil {
+					c.Fail(rule, FuncName(fn)+":format", call.Pos(), "non-constant regexp fragment format")
+					continue
+				}
+				format := constantString(fk)
+				if !strings.Contains(format, "%s") {
+					continue
+				}
+				n++
+				c.Check(isRegexpGroup(format), rule, FuncName(fn)+":fragment", call.Pos(),
+					"fragment format "+fmt.Sprintf("%q", format)+" must be one parenthesised group (optionally followed by ?, + or *)")
+			}
+		}
+	}
+	c.Min("sequence-listener-fragment-formats", n, 8)
+	// the anchors are added around the finished expression, once
+	if v := c.View(pp47 + "NewSequence"); v != nil {
+		okAnchor := false
+		for _, ci := range v.Calls("fmt.Sprintf") {
+			if fk, isK := ci.In.Common().Args[0].(*ssa.Const); isK && constantString(fk) == "^%s$" {
+				okAnchor = true
+			}
+		}
+		for _, ci := range v.Calls("regexp.Compile", "regexp.MustCompile") {
+			if strings.Contains(ci.Args[0], "^") || okAnchor {
+				okAnchor = true
+			}
+		}
+		c.Check(okAnchor, rule, v.Name()+":anchored", v.Fn.Pos(), "the compiled expression is anchored as a whole")
+	}
+}
+
+const pp47 = "private/path/pathpol."
+
+func constantString(k *ssa.Const) string {
+	s := k.Value.ExactString()
+	if u, err := strconvUnquote(s); err == nil {
+		return u
+	}
+	return strings.Trim(s, `"`)
+}
+
 func runC47(c *Ctx) {
+	c47RegexpGroups(c)
 	pp := "private/path/pathpol."
 	if v := c.View("(*" + pp + "ACL).Eval"); v != nil {
 		filterLoop(c, "F1-filter-loops", v, "arg0", func(l Lit, elem ssa.Value) bool {
@@ -365,3 +458,5 @@ func dependsOn(v, src ssa.Value) bool {
 	}
 	return walk(v)
 }
+
+func strconvUnquote(s string) (string, error) { return strconv.Unquote(s) }
